@@ -10,6 +10,7 @@ ASSUMPTIONS = [
     "inductive step instead of call histories: the pre-state is an arbitrary duplicate-free list of k valid sites (symbolic 0-based indices of S/T/Y residues of the "
     "symbolic sequence), i.e. every state the property allows after any series of set/clear calls; one set_phosphosites / clear_phosphosites call follows",
     "requested positions are unbounded symbolic integers (single int, list, tuple); str() of a symbolic number inside warning texts is an opaque placeholder",
+    "derived getters run on an object whose own delta-max cache holds an arbitrary value (over-approximation of 'get_kappa() was called first'); replays call get_kappa() and get_deltaMax() first",
     "kappa of derived sequences is an uninterpreted function of the derived string (its own correctness is C01/C02): the claim is that kappa is applied to exactly the substituted sequence",
 ]
 OUTSIDE = ["sequences longer than the bound, more pre-existing sites / requested positions than the bound", "non-integer requests (strings, floats)"]
@@ -33,6 +34,9 @@ def items(tier, seed):
                 out.append(dict(name="set_N%d_k%d_%s" % (N, k, sh), kind="set", N=N, k=k, shape=sh))
             out.append(dict(name="clear_N%d_k%d" % (N, k), kind="clear", N=N, k=k))
             out.append(dict(name="derived_N%d_k%d" % (N, k), kind="derived", N=N, k=k))
+    # derived getters on sequences long enough for kappa to be defined (delta > 0 needs N >= 5)
+    for N in ((7,) if tier == "quick" else (7, 8)):
+        out.append(dict(name="derived_N%d_k1" % N, kind="derived", N=N, k=1))
     return out
 
 
@@ -168,6 +172,7 @@ def run_item(item):
         KF = z3.Function("kappaUF", *([z3.IntSort()] * N + [z3.RealSort()]))
 
         def kappa_stub(I_, self):
+            log.append(getattr(self, "dmax", None))
             ch = I_.chars(self.seq) if isinstance(self.seq, (str, SymStr)) else None
             codes = []
             for c in ch:
@@ -190,8 +195,14 @@ def run_item(item):
                 out.append(I.merge(cond, "E", base[i]) if any(onmask) else base[i])
             return out
 
+        dcache = z3.Real("cached_dmax")
+        I.solver.add(dcache >= 0)
+
         def thunk():
+            del log[:]
             sp = make_obj(I, s, ps)
+            # the object's own delta-max cache is in an arbitrary filled state (as after get_kappa()/get_deltaMax())
+            sp.SeqObj.dmax = Sym(dcache, "real")
             ka = I.call(sp.get_kappa_after_phosphorylation, [], {})
             dist = I.call(sp.get_full_phosphostatus_kappa_distribution, [], {})
             allsty = I.call(sp.get_all_phosphorylatable_sites, [], {})
@@ -200,6 +211,17 @@ def run_item(item):
         def on_return(ob, val, m):
             sp, ka, dist, allsty = val
             nm = item["name"]
+            if k > 0:
+                # kappa of a substituted sequence must be computed on an object with an empty delta-max cache:
+                # the parent's cached delta-max belongs to another composition
+                # prefer a witness in which the inherited cache is observable (charged parent, long enough for delta > 0)
+                mw = m
+                I.solver.push()
+                I.solver.add(count(is_pos(v) for v in vs) >= 2, count(is_neg(v) for v in vs) >= 1)
+                if I.solver.check() == z3.sat:
+                    mw = I.solver.model()
+                I.solver.pop()
+                ob.prove(all((not is_sym(d)) and d == -1 for d in log), "derived sequence objects do not inherit the parent's delta-max cache (%s)" % nm, lambda m_: cex(mw))
             exp_all = codes_of(subst([True] * k))
             ob.prove(zreal(ka) == KF(*exp_all), "kappa_after_phosphorylation == kappa(sequence with E at every site) (%s)" % nm, cex)
             ok = isinstance(dist, list) and len(dist) == 2 ** k
@@ -262,6 +284,9 @@ def replay(cex):
         return bad, "seq=%s sites before %r, request %r -> sites %r (expected %r), phosphosequence %r (expected %r)" % (seq, pre, cex["request"], sites, want, pseq, wantp)
     sp = SequenceParameters(seq)
     sp.SeqObj.phosphosites = [p - 1 for p in pre]
+    if cex["kind"] == "derived":
+        # real history that fills the object's delta-max cache first
+        sp.get_kappa(); sp.get_deltaMax()
     if cex["kind"] == "clear":
         sp.clear_phosphosites()
         return sp.get_phosphosites() != [] or sp.get_sequence() != seq, "after clear: %r" % (sp.get_phosphosites(),)
